@@ -36,3 +36,30 @@ func TestVerifBreakerAdjustForgets(t *testing.T) {
 		t.Fatalf("limit %d per hour, %d calls admitted within milliseconds", limit, admitted)
 	}
 }
+
+// BRK-ADJUST (carry clause): an Adjust that changes the interval built a new, empty window: 3 per second before and 3 per
+// two seconds after admitted 6 calls back to back.
+func TestVerifBreakerAdjustIntervalCarries(t *testing.T) {
+	const limit = 3
+	b, err := NewOutboundBreaker(limit, time.Second)
+	if err != nil {
+		t.Fatal(err)
+	}
+	admitted := 0
+	for i := 0; i < limit+2; i++ {
+		if b.Zap() {
+			admitted++
+		}
+	}
+	if err := b.Adjust(limit, 2*time.Second); err != nil {
+		t.Fatal(err)
+	}
+	for i := 0; i < limit+2; i++ {
+		if b.Zap() {
+			admitted++
+		}
+	}
+	if limit < admitted {
+		t.Fatalf("limit %d per 1s, then per 2s: %d calls admitted within milliseconds", limit, admitted)
+	}
+}
